@@ -4,9 +4,9 @@ c27_spiral / c27_fermat (traced): the real ``plan_patterns.spiral`` / ``spiral_f
 ``symnp``.  Centre and ranges are symbolic reals; dr is fixed to 1 (the patterns are scale invariant: scaling dr and
 both ranges by c scales every point by c, and the ranges are arbitrary); dr_y/dr, nth / factor and the tilt are
 solver-chosen from small sets, so every angle is a concrete number whose cos/sin/tan are evaluated by ``math``;
-``sqrt`` of a symbolic argument -- it only determines how many rings are tried -- is an unconstrained symbolic value
-bounded by R (a sound over-approximation for an "only produces points inside" claim: extra rings only add candidate
-points).  Oracle: every emitted point p satisfies |p.y - y_start| <= y_range/2 and
+``sqrt`` of a symbolic argument -- it only determines how many rings are tried -- is replaced by a solver-chosen ring
+count below R, and the ranges are constrained (one quadratic inequality pair) to those for which the real formula gives
+exactly that ring count.  Oracle: every emitted point p satisfies |p.y - y_start| <= y_range/2 and
 |(p.x - x_start) - ((p.y - y_start)/aspect)/tan(tilt + pi/2)| <= x_range/2 (for tilt = 0 that is the plain
 rectangle).  A satisfying assignment is replayed with the real numpy.
 
@@ -19,24 +19,22 @@ import math
 
 from vlib import symnp
 from vlib.harness import Harness, register
-from vlib.symx import HarnessError, Real, assume, fork_int, goal, only_shard, in_sym
+from vlib.symx import HarnessError, Real, assume, fork_int, goal, only_shard, in_sym, is_symbolic
 
+EPS = 1e-9  # excesses below this are floating-point rounding of the concrete trigonometry, outside the claim (exact reals)
 ASPECTS = [None, 1.0, 0.5, 2.0, 3.0]
 TILTS = [0.0, 0.3, -0.5]
 
 
-def _tape(vals, bound):
-    it = iter(vals)
+def _tape(value):
+    """sqrt of a symbolic argument (it only decides how many rings are tried) answers with the given concrete value."""
 
     def t(name, x):
-        if type(x) in (float, int):
+        if not is_symbolic(x):
             return getattr(math, name)(x)
         if name != "sqrt":
             raise HarnessError(f"{name} of a symbolic argument: the harness is meant to keep every angle concrete")
-        v = next(it)
-        assume(v >= 0)
-        assume(v < bound)
-        return v
+        return value
 
     return t
 
@@ -47,9 +45,9 @@ def _check(cyc, xm, ym, xs, ys, xr, yr, asp, tilt, who):
     for pt in cyc:
         npts += 1
         dx, dy = pt[xm] - xs, pt[ym] - ys
-        if not (abs(dy) <= yr / 2):
+        if not (abs(dy) <= yr / 2 + EPS):
             return f"{who}:point-outside-the-y-range"
-        if not (abs(dx - (dy / asp) / tt) <= xr / 2):
+        if not (abs(dx - (dy / asp) / tt) <= xr / 2 + EPS):
             return f"{who}:point-outside-the-x-range"
     if npts >= 1:
         goal("points")
@@ -63,17 +61,25 @@ def make_spiral(P):
 
     symnp.selftest()
 
-    def h(xs: Real, ys: Real, xr: Real, yr: Real, ai: int, nth: int, ti: int, s1: Real) -> str:
+    def h(xs: Real, ys: Real, xr: Real, yr: Real, ai: int, nth: int, ti: int, rings: int) -> str:
         a = fork_int(ai, 0, len(ASPECTS) - 1)
         n = fork_int(nth, 1, P["nth"])
         t = fork_int(ti, 0, len(TILTS) - 1)
-        only_shard(a + 5 * n + 25 * t, P)
+        r = fork_int(rings, 0, P["R"] - 1)  # int(r_max / dr)
+        only_shard(a + 5 * n + 25 * t + 75 * r, P)
         assume(xr > 0)
         assume(yr > 0)
         dr = 1.0
         dr_y = None if ASPECTS[a] is None else ASPECTS[a] * dr
-        with symnp.installed(pp, tape=_tape([s1], P["R"]) if in_sym() else None):
-            cyc = pp.spiral("x", "y", xs, ys, xr, yr, dr, n, dr_y=dr_y, tilt=TILTS[t])
+        hx, hy = xr / 2, yr / (2 * (ASPECTS[a] or 1.0))
+        assume(r * r <= hx * hx + hy * hy)  # int(sqrt(hx^2 + hy^2) / dr) == r, so that the forked ring count is the real one
+        assume(hx * hx + hy * hy < (r + 1) * (r + 1))
+        try:
+            with symnp.installed(pp, tape=_tape(r + 0.5) if in_sym() else None):
+                cyc = pp.spiral("x", "y", xs, ys, xr, yr, dr, n, dr_y=dr_y, tilt=TILTS[t])
+        except StopIteration:  # no point fits: cycler cannot add two empty cyclers (an error, not an out-of-range point)
+            goal("empty")
+            return ""
         return _check(cyc, "x", "y", xs, ys, xr, yr, ASPECTS[a] or 1.0, TILTS[t], "spiral")
 
     return h
@@ -84,18 +90,26 @@ def make_fermat(P):
 
     symnp.selftest()
 
-    def h(xs: Real, ys: Real, xr: Real, yr: Real, ai: int, fi: int, ti: int, s1: Real) -> str:
+    def h(xs: Real, ys: Real, xr: Real, yr: Real, ai: int, fi: int, ti: int, rings: int) -> str:
         a = fork_int(ai, 0, len(ASPECTS) - 1)
         f = [1.0, 2.0][fork_int(fi, 0, 1)]
         t = fork_int(ti, 0, len(TILTS) - 1)
-        only_shard(a + 5 * t, P)
+        r = fork_int(rings, 2, P["Rf"])  # num_rings = int((1.5 * diag / (dr / factor)) ** 2)
+        only_shard(a + 5 * t + 15 * r, P)
         assume(xr > 0)
         assume(yr > 0)
         dr = 1.0
         dr_y = None if ASPECTS[a] is None else ASPECTS[a] * dr
-        # num_rings = int((1.5*diag/(dr/factor))**2) <= Rf  <=>  diag < sqrt(Rf+1)/(1.5*factor)
-        with symnp.installed(pp, tape=_tape([s1], math.sqrt(P["Rf"] + 1) / (1.5 * f)) if in_sym() else None):
-            cyc = pp.spiral_fermat("x", "y", xs, ys, xr, yr, dr, f, dr_y=dr_y, tilt=TILTS[t])
+        hx, hy = xr / 2, yr / (2 * (ASPECTS[a] or 1.0))
+        k2 = (1.5 * f) ** 2
+        assume(r <= k2 * (hx * hx + hy * hy))  # int((1.5 * diag / (dr / factor)) ** 2) == r
+        assume(k2 * (hx * hx + hy * hy) < r + 1)
+        try:
+            with symnp.installed(pp, tape=_tape(math.sqrt(r + 0.5) / (1.5 * f)) if in_sym() else None):
+                cyc = pp.spiral_fermat("x", "y", xs, ys, xr, yr, dr, f, dr_y=dr_y, tilt=TILTS[t])
+        except StopIteration:
+            goal("empty")
+            return ""
         return _check(cyc, "x", "y", xs, ys, xr, yr, ASPECTS[a] or 1.0, TILTS[t], "spiral_fermat")
 
     return h
@@ -138,14 +152,14 @@ def _fns(name):
     return f
 
 
-_STUB = "numpy replaced by vlib/symnp.py (validated against numpy each run); sqrt of a symbolic argument is an unconstrained value in [0, bound); trig only of concrete angles (math)"
+_STUB = "numpy replaced by vlib/symnp.py (validated against numpy each run); sqrt of a symbolic argument answers with a value that yields the forked ring count; trig only of concrete angles (math)"
 register(Harness("c27_spiral", "C27", make_spiral, {"quick": dict(nth=3, R=2, shards=16, budget_s=400, per_path_s=60), "thorough": dict(nth=4, R=3, shards=64, budget_s=3000, per_path_s=120)},
                  goals=["points", "three-points"], functions=_fns("spiral"), mode="traced", float_model="real",
-                 symbolic="centre and both ranges: symbolic reals (> 0); dr = 1 (scale invariance); dr_y/dr in {None, 1, 1/2, 2, 3}; nth in [1, nth]; tilt in {0, 0.3, -0.5}; ring count: any value below R",
+                 symbolic="centre and both ranges: symbolic reals (> 0); dr = 1 (scale invariance); dr_y/dr in {None, 1, 1/2, 2, 3}; nth in [1, nth]; tilt in {0, 0.3, -0.5}; ring count: any value below R (solver fork)",
                  out_of_bound="r_max/dr >= R (more rings); other aspect ratios, nth and tilts; floating-point rounding (exact reals)", stubs=_STUB, require_exhaustive=True))
-register(Harness("c27_fermat", "C27", make_fermat, {"quick": dict(Rf=5, shards=15, budget_s=400, per_path_s=60), "thorough": dict(Rf=8, shards=15, budget_s=3000, per_path_s=120)},
+register(Harness("c27_fermat", "C27", make_fermat, {"quick": dict(Rf=8, shards=15, budget_s=400, per_path_s=60), "thorough": dict(Rf=12, shards=30, budget_s=3000, per_path_s=120)},
                  goals=["points", "three-points"], functions=_fns("spiral_fermat"), mode="traced", float_model="real",
-                 symbolic="centre and both ranges: symbolic reals (> 0); dr = 1; dr_y/dr in {None, 1, 1/2, 2, 3}; factor in {1, 2}; tilt in {0, 0.3, -0.5}; ring count: any value up to Rf",
+                 symbolic="centre and both ranges: symbolic reals (> 0); dr = 1; dr_y/dr in {None, 1, 1/2, 2, 3}; factor in {1, 2}; tilt in {0, 0.3, -0.5}; ring count: any value in [2, Rf] (solver fork)",
                  out_of_bound="more than Rf rings; other aspect ratios, factors and tilts; floating-point rounding", stubs=_STUB, require_exhaustive=True))
 register(Harness("c27_square", "C27", make_square, {"quick": dict(N=6, shards=4, budget_s=200, per_path_s=60), "thorough": dict(N=12, shards=16, budget_s=2000, per_path_s=120)},
                  goals=["grid-covered", "non-square"], functions=_fns("spiral_square_pattern"), mode="traced", float_model="real",
